@@ -1,5 +1,5 @@
 """Proposed entries for vx/mutants.py (properties C10 / C11, units ovl_layer / ovl_real / ovl_merge / ovl_ops).  Every `old` occurs exactly
-once in its file at 12c2724 (checked by the self-test at the bottom); each mutant was killed in the sub-agent's campaign with the
+once in its file at /repo HEAD c4f2dab (checked by the self-test at the bottom); each mutant was killed in the sub-agent's campaign with the
 obligation given in the comment.  For the ovl_ops mutants of C11 run the unit with VX_OVL_REC=1 (default) and compare against the
 baseline failures (the reproduced findings) - or run them on a tree with findings/overlay_lower_record.patch applied, where the baseline is ok."""
 L = 'src/api/filesystem/overlay.rs'
@@ -34,16 +34,26 @@ MUTANTS = {
         ('lookup-child-flags-swapped', M, '(false, layer.is_opaque(ctx, v.inode)?)', '(layer.is_opaque(ctx, v.inode)?, false)'),
         # ovl_ops.fallocate.upper + C10.fallocate.no_upper
         ('fallocate-lower-guard-removed', S, "                if !rhd.in_upper_layer {\n                    // TODO: in lower layer, error out or just success?\n                    return Err(Error::from_raw_os_error(libc::EROFS));\n                }\n", ""),
+        # C10.open.lower_flags (+ C10.open.no_upper): the red-team seed C10-a
+        ('open-readonly-by-accmode', S, "        let readonly: bool = flags\n            & (libc::O_APPEND | libc::O_CREAT | libc::O_TRUNC | libc::O_RDWR | libc::O_WRONLY)\n                as u32\n            == 0;\n        // toggle flags\n        let mut flags: i32 = flags as i32;\n",
+         "        // toggle flags\n        let mut flags: i32 = flags as i32;\n        let readonly: bool = flags & libc::O_ACCMODE == libc::O_RDONLY;\n"),
+        # C10.open.lower_flags
+        ('open-copy-up-skipped-for-wronly', S, "& (libc::O_APPEND | libc::O_CREAT | libc::O_TRUNC | libc::O_RDWR | libc::O_WRONLY)\n                as u32\n            == 0;\n        // toggle flags", "& (libc::O_APPEND | libc::O_CREAT | libc::O_TRUNC | libc::O_RDWR)\n                as u32\n            == 0;\n        // toggle flags"),
+        # C10.open.lower_flags: the handle is opened on the lower real inode, the copy-up comes too late
+        ('open-before-copy-up', S, "        if !readonly {\n            // copy up to upper layer\n            self.copy_node_up(ctx, Arc::clone(&node))?;\n        }\n\n        // assign a handle in overlayfs and open it\n        let (_l, h, _) = node.open(ctx, flags as u32, fuse_flags)?;\n",
+         "        // assign a handle in overlayfs and open it\n        let (_l, h, _) = node.open(ctx, flags as u32, fuse_flags)?;\n        if !readonly {\n            // copy up to upper layer\n            self.copy_node_up(ctx, Arc::clone(&node))?;\n        }\n"),
+        # C10.open.lower_flags in copy_regfile_up
+        ('copy-up-opens-lower-for-write', M, "        let (h, _, _) = lower_layer.open(ctx, lower_inode, libc::O_RDONLY as u32, 0)?;", "        let (h, _, _) = lower_layer.open(ctx, lower_inode, libc::O_RDWR as u32, 0)?;"),
         # C10.do_mknod.no_upper
         ('mknod-without-upper-check', M, "        rdev: u32,\n        umask: u32,\n    ) -> Result<()> {\n        if self.upper_layer.is_none() {\n            return Err(Error::from_raw_os_error(libc::EROFS));\n        }\n", "        rdev: u32,\n        umask: u32,\n    ) -> Result<()> {\n"),
     ],
     'C11': [
         # C11.do_rm.whiteout_when_lower
-        ('need-whiteout-inverted', M, "        if node.upper_layer_only() {\n            need_whiteout = false;", "        if !node.upper_layer_only() {\n            need_whiteout = false;"),
+        ('need-whiteout-ignores-record', M, "        if node.upper_layer_only() && !lower_exists {\n            need_whiteout = false;", "        if node.upper_layer_only() {\n            need_whiteout = false;"),
         # C11.do_mkdir.unwhite
         ('do-mkdir-keeps-whiteout', M, "            if delete_whiteout {\n                let _ = parent_real_inode.layer.delete_whiteout(", "            if false {\n                let _ = parent_real_inode.layer.delete_whiteout("),
         # C11.do_mkdir.opaque_when_lower
-        ('do-mkdir-no-opaque-for-lower-whiteout', M, "            if !n.upper_layer_only() {\n                set_opaque = true;\n            }", "            if false {\n                set_opaque = true;\n            }"),
+        ('do-mkdir-opaque-ignores-record', M, "            if !n.upper_layer_only() || lower_exists {\n                set_opaque = true;", "            if !n.upper_layer_only() {\n                set_opaque = true;"),
         # C11.delete_whiteout.not_whiteout + ovl_layer.delete_whiteout.cap
         ('delete-whiteout-unlinks-anything', L, "                if is_whiteout(v.attr) {\n                    return self.unlink(ctx, ino.into(), name);", "                if true {\n                    return self.unlink(ctx, ino.into(), name);"),
         # ovl_ops.copy_regfile_up.cap ([C11.copy_regfile_up.create_cap])
